@@ -115,6 +115,9 @@ def generate(seed: int, tier: str = "quick") -> dict:
     for _ in range(rp.choice([0, 1, 2, 4])):
         if closed:
             b = rp.choice(closed)
+            half = [i for i, t, o in bars if not o and pd.Timestamp(t).minute == 30]
+            if mw.get("filtered_from_half_hours") and half and rp.random() < 0.6:
+                b = rp.choice(half)  # exactly where the finer frame had a snapshot that the hourly one dropped
             o = rp.choice(["deribit.buy", "deribit.sell"])
             a = {"inst": {"i": rp.randint(0, len(names) - 1)}, "amount": {"abs": rp.choice(lots)}} if o == "deribit.buy" else {"inst": {"held": rp.randint(0, 3)}, "amount": {"holding": "1", "else": lots[0]}}
             program.append({"bar": b, "phase": rp.choice(["before_bar", "trigger", "on_bar", "after_bar"]), "op": o, "m": "drb0", "a": a})
